@@ -356,3 +356,130 @@ Proof.
   try (match type of H with context [in_range ?t ?e] => destruct (in_range t e) end);
   inversion H; reflexivity.
 Qed.
+
+(* ================================================================ the ORIGINAL code (before the fix)
+   What the unfixed tree does, and exactly where it violates the specification (reproduced on the real
+   binaries; repaired by fixes/num-checked-arithmetic.diff):
+     K1 float_by_byte_zero : `float / byte 0`, `float % byte 0` yield inf / NaN (zero guard misses Byte(0))
+     K2 rem_min_by_m1      : `MIN % -1` panics although the exact remainder 0 is representable
+     K3 overflows          : in a release build an overflowing + - * (and unary minus of MIN) wraps around *)
+Definition float_by_byte_zero (op : binop) (a b : value) : Prop :=
+  exists o f, op = Arith o /\ is_divlike o = true /\ a = Flt f /\ b = Byte 0.
+
+Definition rem_min_by_m1 (op : binop) (a b : value) : Prop :=
+  op = Arith Rem /\
+  match kind_of a, kind_of b with
+  | Some ka, Some kb => promote ka kb <> KFloat /\
+                        min_by_m1 (ity_of (promote ka kb)) (Zval a) (Zval b) = true
+  | _, _ => False
+  end.
+
+Definition overflows (op : binop) (a b : value) : Prop :=
+  exists o, op = Arith o /\ is_divlike o = false /\
+  match kind_of a, kind_of b with
+  | Some ka, Some kb => promote ka kb <> KFloat /\
+                        in_range (ity_of (promote ka kb)) (exact_Z o (Zval a) (Zval b)) = false
+  | _, _ => False
+  end.
+
+Lemma orig_int_ok : forall m t o x y,
+  in_range t x = true -> in_range t y = true ->
+  ~ (o = Rem /\ min_by_m1 t x y = true) ->
+  (m = Wrap -> ~ (is_divlike o = false /\ in_range t (exact_Z o x y) = false)) ->
+  int_meets (int_spec t o x y) (orig_int m t o x y).
+Proof.
+  intros m t o x y Hx Hy Hrem Hov. destruct m.
+  - apply trap_int_ok; assumption.
+  - apply wrap_int_ok; try assumption.
+    destruct (is_divlike o); [left; reflexivity|].
+    destruct (in_range t (exact_Z o x y)) eqn:E; [right; reflexivity|].
+    exfalso. apply (Hov eq_refl). split; reflexivity.
+Qed.
+
+Theorem arith_orig : forall m o a b, wf a -> wf b -> is_num a -> is_num b ->
+  ~ float_by_byte_zero (Arith o) a b ->
+  ~ rem_min_by_m1 (Arith o) a b ->
+  (m = Wrap -> ~ overflows (Arith o) a b) ->
+  meets (spec_arith o a b) (arith (Orig m) o a b).
+Proof.
+  intros m o a b Ha Hb Na Nb Hbz Hrem Hov.
+  destruct a as [x|x|x|x|x], b as [y|y|y|y|y]; try not_num Na; try not_num Nb;
+  unfold spec_arith, arith, apply_math;
+  cbn [kind_of is_zero zero_guard promote math_no_f64 math_f64 option_map Zval Fval ity_of int_op wf] in *;
+  widen.
+  (* float arms with a float / int / bigint divisor: the guard is the specification's zero test *)
+  all: try (match goal with |- context [F_is_zero ?f] => destruct (is_divlike o && F_is_zero f) end; cbn; auto; fail).
+  all: try (match goal with |- meets _ (if _ && (_ =? 0) then _ else _) => destruct (is_divlike o && (y =? 0)) end; cbn; auto; fail).
+  (* float by byte: no guard; the excluded class K1 is exactly the zero divisor *)
+  all: try (match goal with |- context [flt_op] => idtac end;
+            rewrite andb_false_r; destruct (is_divlike o) eqn:Ed; cbn [andb]; [|reflexivity];
+            destruct (Z.eqb_spec y 0) as [->|]; [|reflexivity];
+            exfalso; apply Hbz; exists o, x; auto; fail).
+  (* integer arms *)
+  all: match goal with
+       | |- meets _ (if _ && ?g then Err else lift Int ?r) => apply (int_arm_meets KInt o _ _ g r)
+       | |- meets _ (if _ && ?g then Err else lift Big ?r) => apply (int_arm_meets KBig o _ _ g r)
+       | |- meets _ (if _ && ?g then Err else lift Byte ?r) => apply (int_arm_meets KByte o _ _ g r)
+       end; try discriminate; try apply eqb0; cbn [ity_of].
+  all: apply orig_int_ok; auto; eauto using in_range_widen, sub_U8_I32, sub_U8_I128, sub_I32_I128.
+  all: try (intros [-> Hm]; apply Hrem; unfold rem_min_by_m1; cbn; split; [reflexivity | split; [discriminate | exact Hm]]).
+  all: intros -> [Hd Hr]; apply (Hov eq_refl); exists o; cbn; split; [reflexivity | split; [exact Hd | split; [discriminate | exact Hr]]].
+Qed.
+
+Theorem binop_orig : forall m op a b, wf a -> wf b -> is_num a -> is_num b ->
+  ~ float_by_byte_zero op a b -> ~ rem_min_by_m1 op a b -> (m = Wrap -> ~ overflows op a b) ->
+  meets (spec_binop op a b) (binop_eval (Orig m) op a b).
+Proof.
+  intros m op a b Ha Hb Na Nb H1 H2 H3. destruct op as [o|o|o|o|o]; cbn [spec_binop binop_eval].
+  - apply arith_orig; assumption.
+  - apply bit_exact; assumption.
+  - apply shift_exact; assumption.
+  - apply cmp_exact; assumption.
+  - pose proof (equals_exact a b Ha Hb Na Nb) as H.
+    destruct (spec_eq a b); [|contradiction]. rewrite H. destruct o; reflexivity.
+Qed.
+
+Theorem neg_orig_trap : forall a, wf a -> meets (spec_neg a) (negate (Orig Trap) a).
+Proof.
+  intros a Ha. destruct a as [x|x|x|x|x]; unfold spec_neg, negate, neg_int, plain, repr;
+  cbn [ity_of mk meets is_failure lift]; auto.
+  - destruct (in_range I32 (- x)); cbn; auto.
+  - destruct (in_range I128 (- x)); cbn; auto.
+Qed.
+
+(* witnesses: each known class really fails in the faithful model of the original code *)
+Lemma orig_wrap_refuted : exists op a b,
+  wf a /\ wf b /\ is_num a /\ is_num b /\ overflows op a b /\
+  binop_eval (Orig Wrap) op a b = Ok (Int (-2147483648)) /\
+  ~ meets (spec_binop op a b) (binop_eval (Orig Wrap) op a b).
+Proof.
+  exists (Arith Add), (Int 2147483647), (Int 1).
+  repeat split; try discriminate.
+  - exists Add. cbn. repeat split; discriminate.
+  - vm_compute. auto.
+Qed.
+
+Lemma orig_float_by_byte_zero_refuted : forall m, exists op a b,
+  wf a /\ wf b /\ is_num a /\ is_num b /\ float_by_byte_zero op a b /\
+  binop_eval (Orig m) op a b = Ok (Flt (B754_infinity false)) /\
+  ~ meets (spec_binop op a b) (binop_eval (Orig m) op a b).
+Proof.
+  intros m. exists (Arith Div), (Flt (F_of_Z 1)), (Byte 0).
+  repeat split; try discriminate.
+  - exists Div, (F_of_Z 1). auto.
+  - destruct m; vm_compute; reflexivity.
+  - destruct m; vm_compute; auto.
+Qed.
+
+Lemma orig_rem_min_by_m1_refuted : forall m, exists op a b,
+  wf a /\ wf b /\ is_num a /\ is_num b /\ rem_min_by_m1 op a b /\
+  spec_binop op a b = Exact (Int 0) /\ binop_eval (Orig m) op a b = Panic.
+Proof.
+  intros m. exists (Arith Rem), (Int (-2147483648)), (Int (-1)).
+  repeat split; try discriminate; destruct m; reflexivity.
+Qed.
+
+Lemma orig_neg_wrap_refuted :
+  wf (Int (-2147483648)) /\ spec_neg (Int (-2147483648)) = Undefined /\
+  negate (Orig Wrap) (Int (-2147483648)) = Ok (Int (-2147483648)).
+Proof. repeat split. Qed.
